@@ -3,7 +3,7 @@
    the stated transform of M) and which verdict comparisons it made (same_at / imp_at); the remaining conjuncts are
    theorems about the DEFINITIONS (TuClosure, RegClosure, BalClosure, GraphicClosure, NetworkClosure, RelProofs,
    TuPivot, RegPivot): the properties whose verdicts are compared are equal (resp. inherited) for M and M'.
-   Hypotheses beyond the record: none for the boolean oracles; well-formedness of M and M' comes from the decoder
+   Assumptions beyond the record: none for the boolean oracles; well-formedness of M and M' comes from the decoder
    (rel_input_wf, rel_input_wf'); `is_binary M` for the graphic statements of kinds 1 and 4 is stated as a premise of the
    corresponding conjunct (GraphicP is a notion about 0/1 matrices; the judge does not check it for kind 1). *)
 From Coq Require Import List ZArith Bool Lia.
